@@ -39,12 +39,19 @@
        time-out  => nondeterministic event [ETimeout]; the client transport that is dropped in
        the same frame in which RenetClient::disconnect() was called never sends that packet.
 
-   History (the code BEFORE the repair, replayed with the protocol harness, 2026-09-30): S8 = with two
-   or more clients the other clients were stranded (new transport paired with the disconnected
-   RenetClient); S9 = a second promotion (promote 1, then promote 0 back) broke because the kick had
-   killed peer 1's RenetClient for ever.  What is left of S8 after the repair is proved in
-   PromotionProofs.v: the old host may keep hosting next to the new one, and the flag of the other
-   clients stays set.
+   SECOND REPAIR (commit b8e47f4, this file), after the two findings left over from S8 (the old host
+   kept its server next to the new one; the flag of the other clients stayed set):
+     - new tracker flag closing_server_after_promotion => field [closing]; the old host's handler of
+       NewHost sets flag AND closing; client_connected closes the server on a ClientDisconnected
+       when connected_clients() == 0 && (flag || closing) and clears both; verify_client_connected
+       still consumes [flag] only;
+     - the CLIENT's handler of NewHost no longer sets the flag.
+
+   History (replayed with the protocol harness, 2026-09-30): S8 = with two or more clients the other
+   clients were stranded (new transport paired with the disconnected RenetClient); S9 = a second
+   promotion (promote 1, then promote 0 back) broke because the kick had killed peer 1's RenetClient
+   for ever.  Both are repaired: PromotionProofs.v proves C07 for 1, 2 and 3 clients in every
+   interleaving, chains of promotions of any length, and the invariants for sessions of any size.
 
    Everything is executable. *)
 From Coq Require Import NArith List Lia.
@@ -82,11 +89,12 @@ Record ppeer := PPeer {
   link_up : bool;                  (* RenetClient::is_connected() *)
   sticky : bool;                   (* the current RenetClient object is Disconnected (for ever: only a NEW object helps) *)
   (* tracker *)
-  flag : bool                      (* SyncTrackerRes::host_promotion_in_progress *)
+  flag : bool;                     (* SyncTrackerRes::host_promotion_in_progress *)
+  closing : bool                   (* SyncTrackerRes::closing_server_after_promotion (commit b8e47f4) *)
 }.
 Global Instance eta_ppeer : Settable _ :=
   settable! PPeer <hosting; srv_state; srv_added; srv_removed; clients; srv_events;
-                   client_of; cli_state; cli_added; cli_removed; link_up; sticky; flag>.
+                   client_of; cli_state; cli_added; cli_removed; link_up; sticky; flag; closing>.
 Global Instance ppeer_eq_dec : EqDecision ppeer. Proof. solve_decision. Defined.
 
 (* [up !! (c,h)]: reliable ordered traffic client c -> host h; [down !! (h,c)]: host h -> client c.
@@ -179,14 +187,14 @@ Definition step (s : pstate) (e : pevent) : option pstate :=
                                        <| flag := true |>))
                 | NewHost h' =>
                     (* REPAIRED (S9/S8): client.disconnect(); cmd.remove_resource::<NetcodeClientTransport>();
-                       cmd.insert_resource(RenetClient::new(..)); cmd.insert_resource(create_client(h'));
-                       flag := true.  Removal and insertion happen in ONE flush: resource_removed never
-                       fires, ClientState stays as it is; the new transport is paired with a FRESH
-                       RenetClient (sticky := false, not connected).  No disconnect packet reaches the old
-                       host (the old transport is dropped in the same flush): it learns by ETimeout. *)
+                       cmd.insert_resource(RenetClient::new(..)); cmd.insert_resource(create_client(h')).
+                       Removal and insertion happen in ONE flush: resource_removed never fires,
+                       ClientState stays as it is; the new transport is paired with a FRESH RenetClient
+                       (sticky := false, not connected).  No disconnect packet reaches the old host (the
+                       old transport is dropped in the same flush): it learns by ETimeout.
+                       b8e47f4: the flag host_promotion_in_progress is NO LONGER set here. *)
                     Some (drop_link (setp s1 c (y <| sticky := false |> <| link_up := false |>
-                                                  <| client_of := Some h' |> <| cli_added := true |>
-                                                  <| flag := true |>)) c h)
+                                                  <| client_of := Some h' |> <| cli_added := true |>)) c h)
                 | ReqInit => Some s1
                 end
             end
@@ -206,12 +214,12 @@ Definition step (s : pstate) (e : pevent) : option pstate :=
                 | ReqInit => Some s1      (* answers with a snapshot: not a role change *)
                 | NewHost h' =>
                     (* server.disconnect(c); repeat_except_for_client(c, NewHost h'); deferred:
-                       flag := true; REPAIRED: insert_resource(RenetClient::new(..)) -- a FRESH RenetClient
+                       flag := true; b8e47f4: closing := true; REPAIRED: insert_resource(RenetClient::new(..)) -- a FRESH RenetClient
                        (sticky := false, not connected) --; insert_resource(create_client(h')) -- an
                        insertion over an existing resource is not "added" (bevy_ecs ResourceData::insert) *)
                     let others := without c (clients x) in
                     let x' := x <| clients := others |> <| srv_events := srv_events x ++ [(false, c)] |>
-                                <| flag := true |> <| client_of := Some h' |>
+                                <| flag := true |> <| closing := true |> <| client_of := Some h' |>
                                 <| cli_added := if client_of x then cli_added x else true |>
                                 <| link_up := false |> <| sticky := false |> in
                     Some (relay (drop_link (drop_link_of (setp s1 h x') h (client_of x)) c h) h others (NewHost h'))
@@ -293,12 +301,14 @@ Definition step (s : pstate) (e : pevent) : option pstate :=
                                      h (client_of x))
                 else Some (setp s h (x <| srv_events := q |>))
             | (false, _) :: q =>
-                (* ClientDisconnected: connected_clients() == 0 && flag ? disconnect_all,
-                   remove_resource::<NetcodeServerTransport>, flag := false.  The remaining events of
-                   this run of the system then find flag = false: nothing more happens. *)
-                if is_nil (clients x) && flag x then
+                (* ClientDisconnected: connected_clients() == 0 && (flag || closing) ? disconnect_all,
+                   remove_resource::<NetcodeServerTransport>, flag := false, closing := false
+                   (b8e47f4: [closing] survives verify_client_connected, which consumes [flag] only).
+                   The remaining events of this run of the system then find both false: nothing
+                   more happens. *)
+                if is_nil (clients x) && (flag x || closing x) then
                   Some (setp s h (x <| srv_events := [] |> <| hosting := false |> <| srv_added := false |>
-                                    <| srv_removed := true |> <| flag := false |>))
+                                    <| srv_removed := true |> <| flag := false |> <| closing := false |>))
                 else Some (setp s h (x <| srv_events := q |>))
             end
           else None
@@ -363,9 +373,9 @@ Definition host : peer := 0%N.
 Definition client_ids (n : nat) : list peer := N.of_nat <$> seq 1 n.
 
 Definition idle_host (cs : list peer) : ppeer :=
-  PPeer true SConnected false false cs [] None CDisconnected false false false false false.
+  PPeer true SConnected false false cs [] None CDisconnected false false false false false false.
 Definition idle_client (h : peer) : ppeer :=
-  PPeer false SDisconnected false false [] [] (Some h) CConnected false false true false false.
+  PPeer false SDisconnected false false [] [] (Some h) CConnected false false true false false false.
 
 (* host 0 with the connected clients 1..n, everybody in its Connected state, nothing in flight *)
 Definition session (n : nat) : pstate :=
@@ -403,13 +413,13 @@ Definition pure_host (x : ppeer) (cs : list peer) : Prop :=
   hosting x = true /\ srv_state x = SConnected /\ srv_added x = false /\ srv_removed x = false /\
   clients x = cs /\ srv_events x = [] /\
   client_of x = None /\ cli_state x = CDisconnected /\ cli_added x = false /\ cli_removed x = false /\
-  link_up x = false /\ flag x = false.
+  link_up x = false /\ flag x = false /\ closing x = false.
 (* a peer that is nothing but a connected client of h, with a RenetClient that is alive *)
 Definition pure_client (x : ppeer) (h : peer) : Prop :=
   hosting x = false /\ srv_state x = SDisconnected /\ srv_added x = false /\ srv_removed x = false /\
   clients x = [] /\ srv_events x = [] /\
   client_of x = Some h /\ cli_state x = CConnected /\ cli_added x = false /\ cli_removed x = false /\
-  link_up x = true /\ sticky x = false /\ flag x = false.
+  link_up x = true /\ sticky x = false /\ flag x = false /\ closing x = false.
 Global Instance pure_host_dec x cs : Decision (pure_host x cs). Proof. unfold pure_host. apply _. Defined.
 Global Instance pure_client_dec x h : Decision (pure_client x h). Proof. unfold pure_client. apply _. Defined.
 
@@ -489,7 +499,7 @@ Definition checkb (good : pstate -> bool) (R : list pstate) : bool :=
 Definition b2n (b : bool) : N := if b then 1%N else 0%N.
 Definition hpeer (x : ppeer) : N :=
   let bits := [hosting x; is_sconn (srv_state x); srv_added x; srv_removed x; is_cconn (cli_state x);
-               is_cconnecting (cli_state x); cli_added x; cli_removed x; link_up x; sticky x; flag x] in
+               is_cconnecting (cli_state x); cli_added x; cli_removed x; link_up x; sticky x; flag x; closing x] in
   let h := foldl (fun a b => 2 * a + b2n b)%N 1%N bits in
   let h := (8 * h + match client_of x with None => 0 | Some t => 1 + t end)%N in
   let h := foldl (fun a c => 8 * a + c + 1)%N h (clients x) in
@@ -546,22 +556,10 @@ Definition session_ok (s : pstate) (k : peer) : Prop :=
     hosting x = false /\ srv_state x = SDisconnected) (ps s).
 Global Instance session_ok_dec s k : Decision (session_ok s k).
 Proof. unfold session_ok. apply _. Defined.
-(* full statement of C07 for n clients (true for n = 1; for n >= 2 still false after the repair: the
-   flag of the other clients stays set, see C07_never_with_more_clients) *)
+(* full statement of C07 for n clients (PromotionProofs: C07_single_client, C07_two_clients,
+   C07_three_clients) *)
 Definition C07_statement (n : nat) (k : peer) : Prop :=
   forall tr s, all_internal tr -> run (promoted n k) tr = Some s -> stable s -> session_ok s k.
-
-(* the same about the ROLES only (nothing said about the flag).  Still false for n >= 2: the old host
-   may keep its server for ever (C07_roles_refuted_two_clients) *)
-Definition session_ok_roles (s : pstate) (k : peer) : Prop :=
-  hosts s = [k] /\
-  map_Forall (fun p x => p <> k ->
-    client_of x = Some k /\ link_up x = true /\ cli_state x = CConnected /\
-    hosting x = false /\ srv_state x = SDisconnected) (ps s).
-Global Instance session_ok_roles_dec s k : Decision (session_ok_roles s k).
-Proof. unfold session_ok_roles. apply _. Defined.
-Definition C07_roles_statement (n : nat) (k : peer) : Prop :=
-  forall tr s, all_internal tr -> run (promoted n k) tr = Some s -> stable s -> session_ok_roles s k.
 
 (* full statement for a chain of two promotions in a two-peer session (true after the repair:
    PromotionProofs.C07_chain) *)
@@ -569,33 +567,18 @@ Definition C07_chain_statement : Prop :=
   forall tr F, all_internal tr -> run (promoted 1 1%N) tr = Some F -> stable F ->
   forall tr' s, all_internal tr' -> run (promote_in F 1%N 0%N) tr' = Some s -> stable s -> handed_over s 0%N 1%N.
 
-(* x is a connected client of k with a live RenetClient and nothing pending; no server side left
-   over except possibly the server itself; the flag is not constrained *)
-Definition joined (x : ppeer) (k : peer) : Prop :=
-  srv_added x = false /\ srv_removed x = false /\ clients x = [] /\ srv_events x = [] /\
-  client_of x = Some k /\ cli_state x = CConnected /\ cli_added x = false /\ cli_removed x = false /\
-  link_up x = true /\ sticky x = false.
-Global Instance joined_dec x k : Decision (joined x k). Proof. unfold joined. apply _. Defined.
-
-(* what a promotion of k by host 0 ends in after the repair, in a session of any size:
-   - nothing in flight;
-   - k is nothing but a host, and every other peer is in its client table;
-   - every other peer is a connected client of k with a live link;
-   - the old host 0 has either closed its server or KEEPS it (hosting nobody) -- flag consumed;
-   - the other clients have no server, and their flag host_promotion_in_progress is still set *)
-Definition old_host_end (x : ppeer) : Prop :=
-  flag x = false /\ ((hosting x = true /\ srv_state x = SConnected) \/ (hosting x = false /\ srv_state x = SDisconnected)).
-Definition other_client_end (x : ppeer) : Prop :=
-  hosting x = false /\ srv_state x = SDisconnected /\ flag x = true.
-Definition repaired_outcome (s : pstate) (k : peer) : Prop :=
+(* what a promotion of k by host 0 ends in, in a session of any size: nothing in flight; k is nothing
+   but a host and every other peer is in its client table; every other peer -- the old host
+   included -- is nothing but a connected client of k with a live RenetClient (no server, no flag) *)
+Definition promotion_outcome (s : pstate) (k : peer) : Prop :=
   up s = ∅ /\ down s = ∅ /\
   match ps s !! k with
   | Some xk => pure_host xk (clients xk) /\ map_Forall (fun p _ => p <> k -> p ∈ clients xk) (ps s)
   | None => False
   end /\
-  map_Forall (fun p x => p <> k -> joined x k /\ (p = host -> old_host_end x) /\ (p <> host -> other_client_end x)) (ps s).
-Global Instance repaired_outcome_dec s k : Decision (repaired_outcome s k).
-Proof. unfold repaired_outcome, old_host_end, other_client_end. destruct (ps s !! k); apply _. Defined.
+  map_Forall (fun p x => p <> k -> pure_client x k) (ps s).
+Global Instance promotion_outcome_dec s k : Decision (promotion_outcome s k).
+Proof. unfold promotion_outcome. destruct (ps s !! k); apply _. Defined.
 
 (* a field of a peer, with a default for peers that do not exist *)
 Definition pget {A} (f : ppeer -> A) (d : A) (s : pstate) (p : peer) : A :=
@@ -610,17 +593,19 @@ Definition wf_peer (x : ppeer) : Prop :=
   (sticky x = true -> link_up x = false) /\
   (cli_state x <> CDisconnected -> is_Some (client_of x) \/ cli_removed x = true) /\
   (srv_state x = SConnected -> hosting x = true \/ srv_removed x = true) /\
-  NoDup (clients x).
+  NoDup (clients x) /\
+  (closing x = true -> hosting x = true).
 Definition roles_inv (s : pstate) : Prop :=
   (forall p x, ps s !! p = Some x -> wf_peer x) /\
   (forall h x c, ps s !! h = Some x -> c ∈ clients x -> c <> h /\ is_Some (ps s !! c)) /\
   (forall c y h, ps s !! c = Some y -> link_up y = true -> client_of y = Some h -> c <> h /\ is_Some (ps s !! h)).
 
-(* the window of a freshly promoted host: while its flag is set it has either seen nobody yet, or the
-   oldest unread ServerEvent is a ClientConnected (which will clear the flag before any
-   ClientDisconnected can close the server) *)
+(* the window of a freshly promoted host: it is not closing (it has not been told to hand over), and
+   while its flag is set it has either seen nobody yet, or the oldest unread ServerEvent is a
+   ClientConnected (which will clear the flag before any ClientDisconnected can close the server) *)
 Definition window (x : ppeer) : Prop :=
-  flag x = true -> (srv_events x = [] /\ clients x = []) \/ (exists c q, srv_events x = (true, c) :: q).
+  closing x = false /\
+  (flag x = true -> (srv_events x = [] /\ clients x = []) \/ (exists c q, srv_events x = (true, c) :: q)).
 
 (* p handles a promotion message in event e *)
 Definition handles_promo_msg (s : pstate) (e : pevent) (p : peer) : Prop :=
@@ -640,12 +625,12 @@ Definition untouched (s : pstate) (c : peer) (x : ppeer) : Prop :=
   cli_removed x = false /\
   exists x0, ps s !! host = Some x0 /\ hosting x0 = true /\ c ∈ clients x0.
 
-(* c has obeyed NewHost(k): a client transport towards k with a RenetClient that is alive and stays
-   alive (k hosts, and a linked c is in k's client table: no kick, no time-out); ClientState never
-   left Connected, so verify_client_connected never runs and the flag stays set *)
+(* c has obeyed NewHost(k): a client transport towards k with a FRESH RenetClient that is alive and
+   stays alive (k hosts, and a linked c is in k's client table: no kick, no time-out); ClientState
+   never left Connected *)
 Definition moved (s : pstate) (k c : peer) (x : ppeer) : Prop :=
   hosting x = false /\ client_of x = Some k /\ cli_state x = CConnected /\ cli_removed x = false /\
-  sticky x = false /\ flag x = true /\
+  sticky x = false /\
   pget hosting false s k = true /\
   (link_up x = true -> c ∈ pget clients [] s k).
 
@@ -667,7 +652,13 @@ Definition spi (k : peer) (s : pstate) : Prop :=
   (* a client other than k is either still an ordinary client of 0, or has moved over to k *)
   (forall c x, ps s !! c = Some x -> c <> host -> c <> k -> untouched s c x \/ moved s k c x) /\
   (* the promoted peer: window while its flag is set *)
-  (forall x, ps s !! k = Some x -> hosting x = true -> window x).
+  (forall x, ps s !! k = Some x -> hosting x = true -> window x) /\
+  (* the flags of the other clients are never set *)
+  (forall c x, ps s !! c = Some x -> c <> host -> c <> k -> flag x = false /\ closing x = false) /\
+  (* the old host: as long as it has its server it either has not yet handled NewHost(k) (no client
+     transport, flag not set), or it is closing -- verify_client_connected cannot undo that *)
+  (forall x, ps s !! host = Some x -> hosting x = true ->
+     closing x = true \/ (closing x = false /\ client_of x = None /\ flag x = false)).
 
 (* the hand-over has not yet reached the old host: the Promote is in flight, or k has not yet
    announced its server, or the announcement NewHost(k) is in flight.  Once this is over it is over
@@ -699,39 +690,43 @@ Example ex_one_client_kicked_runs :
            (1, (true, SConnected, [0], None, CDisconnected, false, true, false))], true).
 Proof. vm_compute. reflexivity. Qed.
 
-(* two clients after the repair, as the real code runs it ("PEERS 3; promote 1"): peer 2 obeys NewHost(1)
-   with a fresh RenetClient and joins 1; the old host 0 joins 1 too, and verify_client_connected
-   consumes its flag while client 2 is still in its table (no disconnect packet: 15 s time-out) *)
+(* two clients, as the real code runs it ("PEERS 3; promote 1"): peer 2 obeys NewHost(1) with a fresh
+   RenetClient and joins 1; the old host 0 joins 1 too, and verify_client_connected consumes its flag
+   while client 2 is still in its table (no disconnect packet: 15 s time-out) -- [closing] stays *)
 Definition ex_two_clients : list pevent :=
   [EPromote 0 1; EDeliverDown 0 1; ESrvUp 1; EDeliverUp 1 0; ELinkDown 1; ENotify 0; ECliConnecting 0;
    EDeliverDown 0 2; ECliConnecting 2;
    EConnect 0; ENotify 1; ECliDown 1; EVerify 0; EConnect 2; ENotify 1].
-(* before the time-out: the old host still "hosts" client 2 *)
+(* before the time-out: the old host still "hosts" client 2, flag consumed, closing set *)
 Example ex_two_clients_runs :
-  (fun s => (roles s, enabled s, hosts s)) <$> run (session 2) ex_two_clients
+  (fun s => (roles s, pget flag true s 0, pget closing false s 0, enabled s, hosts s)) <$> run (session 2) ex_two_clients
   = Some ([(0, (true, SConnected, [2], Some 1, CConnected, true, false, false));
            (1, (true, SConnected, [0; 2], None, CDisconnected, false, true, false));
-           (2, (false, SDisconnected, [], Some 1, CConnected, true, false, true))], [ETimeout 0 2], [0; 1]).
+           (2, (false, SDisconnected, [], Some 1, CConnected, true, false, false))],
+          false, true, [ETimeout 0 2], [0; 1]).
 Proof. vm_compute. reflexivity. Qed.
-(* after it: nothing can happen any more, and TWO peers host *)
+(* after it: the ClientDisconnected of client 2 finds connected_clients() == 0 && closing: the old host
+   closes its server; one host, everybody its connected client *)
 Example ex_two_clients_end :
-  (fun s => (roles s, stableb s, hosts s)) <$> run (session 2) (ex_two_clients ++ [ETimeout 0 2; ENotify 0])
-  = Some ([(0, (true, SConnected, [], Some 1, CConnected, true, false, false));
+  (fun s => (roles s, stableb s, hosts s, bool_decide (session_ok s 1)))
+    <$> run (session 2) (ex_two_clients ++ [ETimeout 0 2; ENotify 0; ESrvDown 0])
+  = Some ([(0, (false, SDisconnected, [], Some 1, CConnected, true, false, false));
            (1, (true, SConnected, [0; 2], None, CDisconnected, false, true, false));
-           (2, (false, SDisconnected, [], Some 1, CConnected, true, false, true))], true, [0; 1]).
+           (2, (false, SDisconnected, [], Some 1, CConnected, true, false, false))], true, [1], true).
 Proof. vm_compute. reflexivity. Qed.
 
-(* the other ending (not what a real network does: needs the old host to notice the departure of
-   client 2 before it has itself connected to the new host): the old host closes its server *)
+(* the other order (the old host notices the departure of client 2 before it has itself connected to
+   the new host: the flag is still set, the server is closed at once, verify_client_connected then
+   asks for an initial sync) *)
 Definition ex_two_clients_closed : list pevent :=
   [EPromote 0 1; EDeliverDown 0 1; ESrvUp 1; EDeliverUp 1 0; ELinkDown 1; ENotify 0; ECliConnecting 0;
    EDeliverDown 0 2; ECliConnecting 2; EConnect 2; ENotify 1; ECliDown 1; ETimeout 0 2; ENotify 0; ESrvDown 0;
    EConnect 0; ENotify 1; EVerify 0; EDeliverUp 0 1].
 Example ex_two_clients_closed_runs :
-  (fun s => (roles s, stableb s, hosts s)) <$> run (session 2) ex_two_clients_closed
+  (fun s => (roles s, stableb s, hosts s, bool_decide (session_ok s 1))) <$> run (session 2) ex_two_clients_closed
   = Some ([(0, (false, SDisconnected, [], Some 1, CConnected, true, false, false));
            (1, (true, SConnected, [2; 0], None, CDisconnected, false, true, false));
-           (2, (false, SDisconnected, [], Some 1, CConnected, true, false, true))], true, [1]).
+           (2, (false, SDisconnected, [], Some 1, CConnected, true, false, false))], true, [1], true).
 Proof. vm_compute. reflexivity. Qed.
 
 (* a chain of promotions in a two-peer session ("PEERS 2; promote 1; ...; promote 0; ...; promote 1"):
@@ -755,12 +750,12 @@ Example ex_chain3_runs :
            (1, (true, SConnected, [0], None, CDisconnected, false, true, false))], true, true).
 Proof. vm_compute. reflexivity. Qed.
 
-(* Where a dead RenetClient can still persist after the repair: a kicked promoted peer that never
-   handles a NewHost.  The application asks for TWO promotions at once (1 and 2): both start a server
-   and announce it; the old host obeys NewHost(1) (kicks 1, turns towards 1), then NewHost(2) (kicks 2,
-   turns towards 2 with yet another fresh RenetClient) and ends as a client of 2.  Peer 1 has been
-   kicked (RenetClient dead), nobody ever joins it, so its flag, its stale client transport and its
-   dead RenetClient stay for ever: a second server hosting nobody, outside the session. *)
+(* NOT covered by the repairs: the application asks for TWO promotions at once (1 and 2).  Both start a
+   server and announce it; the old host obeys NewHost(1) (kicks 1, turns towards 1), then NewHost(2)
+   (kicks 2, turns towards 2 with yet another fresh RenetClient), closes its server and ends as a
+   client of 2.  Peer 1 has been kicked (RenetClient dead), nobody ever joins it, so its flag, its
+   stale client transport and its dead RenetClient stay for ever: a second server hosting nobody,
+   outside the session.  (Unchanged by b8e47f4.) *)
 Definition ex_concurrent_promotions : list pevent :=
   [EPromote 0 1; EPromote 0 2;
    EDeliverDown 0 1; ESrvUp 1; EDeliverDown 0 2; ESrvUp 2; EDeliverUp 1 0; ENotify 0; ECliConnecting 0;
